@@ -427,10 +427,8 @@ void SPxScaler<R>::getUpperUnscaled(const SPxLPBase<R>& lp, VectorBase<R>& vec) 
    assert(lp.isScaled());
    assert(lp.LPColSetBase<R>::upper().dim() == vec.dim());
 
-   const DataArray < int >& colscaleExp = lp.LPColSetBase<R>::scaleExp;
-
    for(int i = 0; i < lp.LPColSetBase<R>::upper().dim(); i++)
-      vec[i] = spxLdexp(lp.LPColSetBase<R>::upper()[i], colscaleExp[i]);
+      vec[i] = upperUnscaled(lp, i);
 }
 
 
@@ -459,10 +457,8 @@ void SPxScaler<R>::getLowerUnscaled(const SPxLPBase<R>& lp, VectorBase<R>& vec) 
    assert(lp.isScaled());
    assert(lp.LPColSetBase<R>::lower().dim() == vec.dim());
 
-   const DataArray < int >& colscaleExp = lp.LPColSetBase<R>::scaleExp;
-
    for(int i = 0; i < lp.LPColSetBase<R>::lower().dim(); i++)
-      vec[i] = spxLdexp(lp.LPColSetBase<R>::lower()[i], colscaleExp[i]);
+      vec[i] = lowerUnscaled(lp, i);
 }
 
 /// returns unscaled objective function coefficient of \p i
@@ -597,8 +593,7 @@ void SPxScaler<R>::getRhsUnscaled(const SPxLPBase<R>& lp, VectorBase<R>& vec) co
 
    for(int i = 0; i < lp.LPRowSetBase<R>::rhs().dim(); i++)
    {
-      const DataArray < int >& rowscaleExp = lp.LPRowSetBase<R>::scaleExp;
-      vec[i] = spxLdexp(lp.LPRowSetBase<R>::rhs()[i], -rowscaleExp[i]);
+      vec[i] = rhsUnscaled(lp, i);
    }
 }
 
@@ -627,10 +622,8 @@ void SPxScaler<R>::getLhsUnscaled(const SPxLPBase<R>& lp, VectorBase<R>& vec) co
    assert(lp.isScaled());
    assert(lp.LPRowSetBase<R>::lhs().dim() == vec.dim());
 
-   const DataArray < int >& rowscaleExp = lp.LPRowSetBase<R>::scaleExp;
-
    for(int i = 0; i < lp.LPRowSetBase<R>::lhs().dim(); i++)
-      vec[i] = spxLdexp(lp.LPRowSetBase<R>::lhs()[i], -rowscaleExp[i]);
+      vec[i] = lhsUnscaled(lp, i);
 }
 
 /// returns unscaled coefficient of \p lp
